@@ -245,6 +245,27 @@ func checkTypedHelperSpec(c *Ctx, p *Prog, R *BusRoles, rule string, f *ssa.Func
 				good = false
 				c.Unresolved(rule, name+"/fallback-guard", "Implements result is not branched on directly")
 			} else {
+				// tests evaluated before Implements may only exclude interface kinds (a
+				// nil interface has no dynamic type to ask); any other early exit to the
+				// reflection name ignores a TypeNamer the type does implement
+				for _, b := range f.Blocks {
+					iff, ok := b.Instrs[len(b.Instrs)-1].(*ssa.If)
+					if !ok || iff == implIf || !b.Dominates(implIf.Block()) {
+						continue
+					}
+					okKind := false
+					if bo, ok := iff.Cond.(*ssa.BinOp); ok && (bo.Op == token.EQL || bo.Op == token.NEQ) {
+						if call, ok := bo.X.(*ssa.Call); ok && call.Common().IsInvoke() && call.Common().Method.Name() == "Kind" && sameValue(call.Common().Value, tval) {
+							if k, ok := bo.Y.(*ssa.Const); ok && k.Value != nil && k.Int64() == 20 { // reflect.Interface
+								okKind = true
+							}
+						}
+					}
+					if !okKind {
+						good = false
+						c.Violate(rule, name+"/fallback-guard", p.Pos(iff.Pos()), "a test other than 'T is an interface type' is made before asking whether T implements TypeNamer and can divert to the reflection name: some types that implement TypeNamer (e.g. pointer types) are looked up under their reflection name while their events are persisted under the custom one", nil)
+					}
+				}
 				tb, fb := implIf.Block().Succs[0], implIf.Block().Succs[1]
 				for _, r := range strRets {
 					if blockReaches(tb, r.Block()) && !blockReaches(fb, r.Block()) {
